@@ -2136,3 +2136,235 @@ func init() {
 			}
 		}})
 }
+
+// classify: a field read is request-derived when the struct is a wire message or the field is the
+// Checkpoint of a change pack.
+func classify(fld ssa.Value, base types.Type, why *string) {
+	f := prog.FieldVar(fld)
+	nt := namedOf(base)
+	if f == nil || nt == nil || nt.Obj().Pkg() == nil {
+		return
+	}
+	if strings.HasSuffix(nt.Obj().Pkg().Path(), "/"+apiPkg) {
+		*why = "the request field " + nt.Obj().Name() + "." + f.Name()
+		return
+	}
+	if nt.Obj().Name() == "Checkpoint" && strings.HasSuffix(nt.Obj().Pkg().Path(), "/"+changePkg) {
+		// a Checkpoint value: where does it come from? the request pack's is client-chosen
+		if fa, ok := fld.(*ssa.FieldAddr); ok {
+			if pf := prog.LoadedField(fa.X); pf != nil && pf.Name() == "Checkpoint" {
+				if bn := namedOf(prog.FieldBase(fa.X).Type()); bn != nil && bn.Obj().Name() == "Pack" {
+					*why = "the request pack's Checkpoint"
+				}
+			}
+			if inner, ok := fa.X.(*ssa.FieldAddr); ok {
+				if pf := prog.FieldVar(inner); pf != nil && pf.Name() == "Checkpoint" {
+					if bn := namedOf(inner.X.Type()); bn != nil && bn.Obj().Name() == "Pack" {
+						*why = "the request pack's Checkpoint"
+					}
+				}
+			}
+		}
+	}
+}
+
+func init() {
+	register(&Rule{ID: "O2.cache.seq", Min: 4, Text: "only server-chosen versions are collected and cached: a rebuild that garbage-collects with the current minimum version vector and stores its result in the snapshot cache (every call that reaches Cache.Snapshot.Add — calls that pass the constant true for a bool parameter under whose false edge alone the Add sits are not such calls) is made for a ServerSeq that is computed from server state (a DocInfo row, the head before the push), never from a request: walking back from the argument through arithmetic, parameters and the callers' arguments, no field of a wire message (package api/yorkie/v1) and no Checkpoint of a request pack is reached. The minimum vector says what clients know now; an old version collected with it has lost tombstones that the changes behind it still anchor on, and from the cache it makes every later rebuild fail",
+		Run: func(x *Ctx) {
+			// the functions of package packs that add to the snapshot cache
+			snapF := x.P.Field("server/backend/cache.Manager.Snapshot")
+			if snapF == nil {
+				// resolve by name: a field named Snapshot of the backend's cache manager
+				for _, cand := range []string{"server/backend.Cache.Snapshot", "server/backend/cache.Cache.Snapshot", "pkg/cache.Manager.Snapshot"} {
+					if f := x.P.Field(cand); f != nil {
+						snapF = f
+					}
+				}
+			}
+			type addSite struct {
+				fn *ssa.Function
+				at ssa.CallInstruction
+			}
+			var adds []addSite
+			for _, fn := range x.P.FuncsIn("server/packs") {
+				for _, c := range prog.CallsIn(fn) {
+					o := prog.CallObj(c)
+					if o == nil || o.Name() != "Add" {
+						continue
+					}
+					r := recvOf(c)
+					if r == nil {
+						continue
+					}
+					if f := prog.LoadedField(r); f != nil && f.Name() == "Snapshot" {
+						adds = append(adds, addSite{fn, c})
+					}
+				}
+			}
+			if len(adds) == 0 {
+				x.C.Unresolved(x.id(), "a call of Cache.Snapshot.Add in server/packs")
+				return
+			}
+			int64Param := func(fn *ssa.Function) []int {
+				var out []int
+				for i, pm := range fn.Params {
+					if b, ok := pm.Type().Underlying().(*types.Basic); ok && b.Kind() == types.Int64 {
+						out = append(out, i)
+					}
+				}
+				return out
+			}
+			// request-derived?
+			var tainted func(v ssa.Value, fn *ssa.Function, depth int, seen map[ssa.Value]bool) string
+			tainted = func(v ssa.Value, fn *ssa.Function, depth int, seen map[ssa.Value]bool) string {
+				why := ""
+				var params []*ssa.Parameter
+				// the number's own data flow: arithmetic, phis, conversions, locals, field reads — not the
+				// arguments of the calls that produced the structures it is read from
+				var walk func(w ssa.Value, d int)
+				walk = func(w ssa.Value, d int) {
+					if w == nil || seen[w] || d > 30 || why != "" {
+						return
+					}
+					seen[w] = true
+					switch t := w.(type) {
+					case *ssa.Parameter:
+						params = append(params, t)
+					case *ssa.BinOp:
+						walk(t.X, d+1)
+						walk(t.Y, d+1)
+					case *ssa.Phi:
+						for _, e := range t.Edges {
+							walk(e, d+1)
+						}
+					case *ssa.Convert:
+						walk(t.X, d+1)
+					case *ssa.ChangeType:
+						walk(t.X, d+1)
+					case *ssa.Field:
+						classify(t, t.X.Type(), &why)
+					case *ssa.UnOp:
+						switch ad := t.X.(type) {
+						case *ssa.FieldAddr:
+							classify(ad, ad.X.Type(), &why)
+						case *ssa.Alloc:
+							for _, r := range *ad.Referrers() {
+								if st, ok := r.(*ssa.Store); ok && st.Addr == ssa.Value(ad) {
+									walk(st.Val, d+1)
+								}
+							}
+						}
+					case *ssa.Extract:
+						if c, ok := t.Tuple.(*ssa.Call); ok {
+							if callee := c.Call.StaticCallee(); callee != nil && len(callee.Blocks) > 0 && x.P.InModule(callee) {
+								for _, r := range prog.Returns(callee) {
+									if t.Index < len(r.Results) {
+										walk(prog.ReturnValue(r, t.Index), d+1)
+									}
+								}
+							}
+						}
+					case *ssa.Call:
+						if callee := t.Call.StaticCallee(); callee != nil && len(callee.Blocks) > 0 && x.P.InModule(callee) {
+							for _, r := range prog.Returns(callee) {
+								if len(r.Results) > 0 {
+									walk(prog.ReturnValue(r, 0), d+1)
+								}
+							}
+						}
+					}
+				}
+				walk(v, 0)
+				if why != "" || depth >= 4 {
+					return why
+				}
+				for _, pm := range params {
+					owner := pm.Parent()
+					idx := -1
+					for i, p := range owner.Params {
+						if p == pm {
+							idx = i
+						}
+					}
+					fo, _ := owner.Object().(*types.Func)
+					if fo == nil || idx < 0 {
+						continue
+					}
+					if b, ok := pm.Type().Underlying().(*types.Basic); !ok || b.Info()&types.IsInteger == 0 {
+						continue // only the number itself is followed upwards
+					}
+					for _, c := range x.directCallers(fo) {
+						if c.Parent().Pkg == nil || !prog.IsProd(c.Parent().Pkg.Pkg.Path()) || c.Common().IsInvoke() || idx >= len(c.Common().Args) {
+							continue
+						}
+						if w := tainted(c.Common().Args[idx], c.Parent(), depth+1, seen); w != "" {
+							return w + " <- " + prog.FnName(c.Parent())
+						}
+					}
+				}
+				return ""
+			}
+			n := 0
+			done := map[*ssa.Function]bool{}
+			for _, a := range adds {
+				if done[a.fn] {
+					continue
+				}
+				done[a.fn] = true
+				// a bool parameter whose false edge alone reaches the Add
+				gate := -1
+				for i, pm := range a.fn.Params {
+					if isBoolType(pm.Type()) && x.quietGuarded(a.at, []Cmp{isFalse(vpParam(a.fn, i))}) {
+						gate = i
+					}
+				}
+				fo, _ := a.fn.Object().(*types.Func)
+				if fo == nil {
+					continue
+				}
+				// the caching call sites: of the function itself, or — when it is called by thin wrappers that pass the gate as a constant — of the wrappers
+				type site struct {
+					c   ssa.CallInstruction
+					arg ssa.Value
+				}
+				var sites []site
+				var collect func(f *ssa.Function, fobj *types.Func, gateIdx int, depth int)
+				collect = func(f *ssa.Function, fobj *types.Func, gateIdx int, depth int) {
+					for _, c := range x.directCallers(fobj) {
+						if c.Parent().Pkg == nil || !prog.IsProd(c.Parent().Pkg.Pkg.Path()) || c.Common().IsInvoke() {
+							continue
+						}
+						args := c.Common().Args
+						if gateIdx >= 0 && gateIdx < len(args) && vpTrue.match(args[gateIdx]) {
+							continue // not a caching build
+						}
+						for _, i := range int64Param(f) {
+							if i < len(args) {
+								// forwarded parameter of a wrapper?
+								if pm, isP := args[i].(*ssa.Parameter); isP && depth < 2 && pm.Parent() == c.Parent() {
+									if wo, _ := c.Parent().Object().(*types.Func); wo != nil && prog.PkgOf(c.Parent()) == prog.PkgOf(f) {
+										collect(c.Parent(), wo, -1, depth+1)
+										continue
+									}
+								}
+								sites = append(sites, site{c, args[i]})
+							}
+						}
+					}
+				}
+				collect(a.fn, fo, gate, 0)
+				cnt := map[string]int{}
+				for _, s := range sites {
+					n++
+					cnt[prog.FnName(s.c.Parent())]++
+					why := tainted(s.arg, s.c.Parent(), 0, map[ssa.Value]bool{})
+					x.check(why == "", fmt.Sprintf("caller=%s caching-rebuild#%d serverSeq-is-server-chosen", prog.FnName(s.c.Parent()), cnt[prog.FnName(s.c.Parent())]), x.pos(s.c),
+						"the version that is collected and cached is computed from server state",
+						"a rebuild that collects garbage with the current minimum vector and caches its result is made for a ServerSeq taken from "+why+": for an old version the vector purges tombstones the later changes still anchor on, and every later rebuild — snapshot pulls, stored snapshots, compaction — starts from the cached document and fails with 'child not found'")
+				}
+			}
+			if n < 4 {
+				x.C.Vacuous(x.id()+" caching rebuilds", n, 4)
+			}
+		}})
+}
